@@ -232,6 +232,10 @@ payload_plausible(RPFrame *f)
 {
     size_t actualsize = f->payload.size;
     if (BIT_ISSET(f->header.options, RP_OPT_WORD_SIZE_16)) {
+        if ((actualsize % 2u) != 0u) {
+            /* Half a word can never be a plausible payload size. */
+            return -EFAULT;
+        }
         actualsize /= 2;
     }
     switch (f->header.type) {
